@@ -99,10 +99,14 @@ class Model:
         self.sigs[("Hits", "nhits")] = [("scale", "int", 2)]
         self.sigs[("Label", "upper")] = []
         self.sigs[("Label", "zfill")] = [("width", "int", E)]
-        for cls in ("Trk", "Jet", "Event"):
+        for cls in ("Trk", "TJet", "Jet", "Event"):
             self.sigs[(cls, "hits")] = []
             self.sigs[(cls, "label")] = []
-        for cls in ("Trk", "Jet", "Event"):
+        for cls in ("Trk", "TJet", "Jet", "Event"):
+            if cls == "Jet":
+                # (the namesake written so far gets its place: a class called Jet inside a namespace class)
+                at = src.index("class TJet:")
+                src[at:] = ["class Truth:", "    class Jet:"] + ["    " + ln for ln in src[at + 1:]]
             src.append(f"class {cls}(Tagged, Calibrated):" if cls == "Jet" else f"class {cls}:")
             # a method whose result type is a type variable nothing binds: the call is still a known call
             src.append("    def gen(self, x: S, strict: bool = False, level: int = 3) -> S: ...")
@@ -134,7 +138,8 @@ class Model:
                     self.ret[(cls, cm)] = ct
                     src.append(f"    def {cm}({sig_text(params)}) -> {ct}: ...")
             if cls == "Event":
-                for cm, ct in (("jets", "Iterable[Jet]"), ("jets_my", "MyIter[Jet]"), ("jets_reg", "RegColl[Jet]"), ("trks", "Iterable[Trk]")):
+                # tjets: objects of ANOTHER class that is called Jet too (Truth.Jet), with the same method names and other signatures
+                for cm, ct in (("jets", "Iterable[Jet]"), ("jets_my", "MyIter[Jet]"), ("jets_reg", "RegColl[Jet]"), ("trks", "Iterable[Trk]"), ("tjets", "Iterable[Truth.Jet]")):
                     if self.quoted:
                         ct = ct.replace("[Jet]", f"['Jet_{self.id}']").replace("[Trk]", f"['Trk_{self.id}']")
                     params = gen_signature(rnd, 2)
@@ -164,6 +169,7 @@ class Model:
         self.ns = {}
         exec(compile(self.source, f"<typedmodel{self.id}>", "exec"), self.ns)
         self.Event, self.Jet, self.Trk = self.ns["Event"], self.ns["Jet"], self.ns["Trk"]
+        self.ns["TJet"] = self.ns["Truth"].Jet
 
     def redefine_method(self, rnd, cls, meth):
         """History: a method of an already-used class is declared again with another signature."""
@@ -185,5 +191,5 @@ class Model:
             tbr._global_functions.pop(fn, None)
         tbr._g_collection_classes.pop(self.ns.get("RegColl"), None)
 
-    ELEM = {"jets": "Jet", "jets_my": "Jet", "jets_reg": "Jet", "trks": "Trk", "trks_my": "Trk", "trks_reg": "Trk"}
-    COLLS = {"Event": ["jets", "jets_my", "jets_reg", "trks"], "Jet": ["trks", "trks_my", "trks_reg"], "Trk": []}
+    ELEM = {"jets": "Jet", "jets_my": "Jet", "jets_reg": "Jet", "trks": "Trk", "trks_my": "Trk", "trks_reg": "Trk", "tjets": "TJet"}
+    COLLS = {"Event": ["jets", "jets_my", "jets_reg", "trks", "tjets"], "Jet": ["trks", "trks_my", "trks_reg"], "Trk": [], "TJet": []}
